@@ -171,6 +171,23 @@ static void * F_other(void * arg) {
    g_res != 0: __CPROVER_object_whole(RES); \
    g_ids != 0: __CPROVER_object_whole(IDS)
 
+/* the range descriptor handed to the new thread: that thread reads its bounds when it STARTS RUNNING, which (help-first
+   creation, or a stolen child) may be any time before it is joined -- so the creator must leave the descriptor alone
+   until then.  Recorded by a wrapper with a body around the create contract (a pointer that a contract merely constrains
+   cannot be dereferenced in CBMC), checked by a wrapper around the join contract; written only by the level under proof. */
+myth_create_join_various_arg * g_carg;
+int verif_create_c(myth_thread_t * id, myth_thread_attr_t * attr, myth_func_t func, void * arg);
+int verif_join_c(myth_thread_t th, void ** result);
+int verif_create_stub(myth_thread_t * id, myth_thread_attr_t * attr, myth_func_t func, void * arg) {
+  g_carg = (myth_create_join_various_arg *)arg;
+  return verif_create_c(id, attr, func, arg);
+}
+int verif_join_stub(myth_thread_t th, void ** result) {
+  __CPROVER_assert(g_carg->a == g_ca && g_carg->b == g_cb,
+                   "the range descriptor handed to a created thread is left untouched until that thread has been joined");
+  return verif_join_c(th, result);
+}
+
 void * aux_contract(void * meta_arg_)
   __CPROVER_requires(GHOSTS_OK)
   __CPROVER_requires(__CPROVER_r_ok(MA(meta_arg_), sizeof(myth_create_join_various_arg)))
@@ -178,7 +195,8 @@ void * aux_contract(void * meta_arg_)
   /* decreases b - a: the call under proof has the range [g_ha, g_hb); every call from inside its body is strictly smaller */
   __CPROVER_requires(g_in_body == 0 ? (MA(meta_arg_)->a == g_ha && MA(meta_arg_)->b == g_hb && g_pending == g_p0)
                                     : SMALLER(MA(meta_arg_)->a, MA(meta_arg_)->b))
-  __CPROVER_assigns(g_in_body; RANGE_ASSIGNS)
+  __CPROVER_requires(g_in_body == 0 || g_pending == g_p0 || MA(meta_arg_) != g_carg)   /* never on the descriptor of an outstanding child */
+  __CPROVER_assigns(g_in_body; g_in_body == 0: g_carg; RANGE_ASSIGNS)
   __CPROVER_ensures(__CPROVER_return_value == 0 && g_in_body == 1)
   RANGE_ENSURES(OLD(MA(meta_arg_)->a), OLD(MA(meta_arg_)->b))
   /* the child record of the level under proof is not touched by deeper levels (they keep their own) */
@@ -228,20 +246,24 @@ int various_contract(myth_thread_t * ids, myth_thread_attr_t * attrs, myth_func_
                      long nthreads)
   __CPROVER_requires(GHOSTS_OK && PARAMS_OK && func_stride == g_fs)
   __CPROVER_requires(g_fs == 0 ? (__CPROVER_r_ok(funcs, sizeof(myth_func_t)) && *funcs == F_watch) : funcs == (myth_func_t *)FUNCS)
-  __CPROVER_assigns(g_in_body; RANGE_ASSIGNS)
+  __CPROVER_assigns(g_in_body, g_carg; RANGE_ASSIGNS)
   __CPROVER_ensures(__CPROVER_return_value == 0)
   RANGE_ENSURES(0, g_hb);
 
 int many_contract(myth_thread_t * ids, myth_thread_attr_t * attrs, myth_func_t func, void * args, void * results,
                   size_t id_stride, size_t attr_stride, size_t arg_stride, size_t result_stride, long nthreads)
   __CPROVER_requires(GHOSTS_OK && PARAMS_OK && g_fs == 0 && func == F_watch)
-  __CPROVER_assigns(g_in_body; RANGE_ASSIGNS)
+  __CPROVER_assigns(g_in_body, g_carg; RANGE_ASSIGNS)
   __CPROVER_ensures(__CPROVER_return_value == 0)
   RANGE_ENSURES(0, g_hb);
 
 /* keep every contract-replaced function referenced */
 int (*keep_create)(myth_thread_t *, myth_thread_attr_t *, myth_func_t, void *) = myth_create_ex_body;
 int (*keep_join)(myth_thread_t, void **) = myth_join_body;
+int (*keep_create_c)(myth_thread_t *, myth_thread_attr_t *, myth_func_t, void *) = verif_create_c;
+int (*keep_join_c)(myth_thread_t, void **) = verif_join_c;
+int (*keep_create_s)(myth_thread_t *, myth_thread_attr_t *, myth_func_t, void *) = verif_create_stub;
+int (*keep_join_s)(myth_thread_t, void **) = verif_join_stub;
 void * (*keep_aux)(void *) = myth_create_join_various_ex_aux;
 
 /* ------------------------------------------------------------------ harness: the universe, built constructively */
